@@ -16,25 +16,35 @@ PARALLEL = 8
 IMPORTS = "From Coq Require Import Uint63.\nFrom Verif Require Import C18.Model C18.Spec C18.Corr."
 CASE_TYPE = "C18.Corr.case"
 RUNNER = "C18.Corr.run"
-FINDING_CLASSES = {1: "C18-F1", 2: "C18-F2", 3: "C18-F3"}
-RULE = ("ident: seeded random histories (quick 300, thorough 2000; length <= 60) of store / remove_remote / remove_local / "
+FINDING_CLASSES = {1: "C18-F1", 2: "C18-F2", 3: "C18-F3", 4: "C18-F4"}
+RULE = ("ident: (a) ALL histories of length <= 3 (thorough: <= 4) over a 10-letter abstract alphabet (persistent id for user1/sp1, "
+        "user1/sp2, user2/sp1, unqualified; transient and e-mail format id for user1/sp1; NewID / Terminate / remove_remote / "
+        "find_local_id on the most recently answered NameID); (b) 54 directed histories around the (repaired) finding classes 2 and 3; "
+        "(c) seeded random histories (quick 300, thorough 2000; length 2..60) of store / remove_remote / remove_local / "
         "get_nameid / find_nameid / match_local_id / persistent / transient / construct / name-id-mapping / manage-name-id "
         "(new id, encrypted, terminate, noop) / find_local_id / close over 1-4 users and 1-4 requesters drawn from pools with "
-        "separators, spaces, '%', '=', ',', '__', non-ASCII, empty; a tenth of the histories also confuses user names with "
-        "identifier values (model faithfulness outside the property's hypotheses). codec: batches of five-field identifiers "
-        "over a near-collision alphabet + decode on malformed strings. eptid: ALL ordered pairs of calls over a 4x4 "
-        "(requester, user) alphabet around the '__' separator, plus random histories with several providers. "
-        "non-trivial = distinct sequence of (operation kind, outcome kind) of a history of length >= 2 / distinct codec batch / "
-        "distinct eptid history")
+        "separators, spaces, '%', '=', ',', '__', non-ASCII, empty; a tenth of the random histories also confuses user names with "
+        "identifier values (model faithfulness outside the property's hypotheses). Every history runs against a real "
+        "IdentDB({}); return value and the whole db dict are compared with the model after EVERY step. codec: batches of "
+        "five-field identifiers over a near-collision alphabet + decode on malformed strings. eptid: ALL ordered pairs of "
+        "calls over a 4x4 (requester, user) alphabet around the '__' separator, ALL ordered pairs over 7 ways of splitting "
+        "'abc' over user id and extra arguments x 2 requesters, plus random histories with several "
+        "providers. non-trivial = distinct sequence of (operation kind, outcome kind, number of changed dict entries) of a "
+        "history of length >= 2 / distinct codec batch / distinct non-empty decode input / distinct eptid history")
 TRUSTED = ["abstraction of NameID objects to their five ATTR fields and of exceptions to their class (harness/c18.py)",
-           "hashlib.md5 table handed to the model as the md5 oracle (inputs computed by the harness, not by Eptid)"]
+           "hashlib.md5 table handed to the model as the md5 oracle (inputs computed by the harness, not by Eptid)",
+           "compact string literals of the case files (C18.Corr.u / cat, decoded inside vm_compute)"]
 ASSUMPTIONS = ["IdentDB is backed by a dict (shelve differs only in remove_local raising AttributeError on the bytes key)",
-               "freshness of generated identifiers (hypothesis wf of the theorems; sha256 over 32 random bytes in the code)",
-               "user names are disjoint from identifier values and NameID.text is a str (hypotheses of the theorems; "
-               "histories outside them are still compared with the model)",
+               "freshness of generated identifiers (hypothesis wf of the theorems: a value that is stored was not mentioned "
+               "by an earlier operation; sha256 over 32 random bytes + 'while _id in self.db' in the code)",
+               "user names are disjoint from identifier values and NameID.text is a str (hypotheses wf of the theorems; "
+               "histories outside them are still compared with the model step by step)",
                "strings are valid UTF-8; the index field of a coded part uses ASCII digits/whitespace only; "
                "percent escapes in user names decode to valid UTF-8",
-               "md5 is injective on the inputs compared (eptid_distinct), hexdigest has a fixed length"]
+               "eptid distinctness: md5 is injective and hexdigest has a fixed length (Section hypotheses of c18_eptid); "
+               "args is not empty; len() of a str = number of non-continuation bytes of its UTF-8 encoding",
+               "the low-level IdentDB.store() is not handed a second persistent-format identifier for a (user, requester, "
+               "qualifier) that already has one (clause of wf; histories outside it are still compared with the model)"]
 
 P = "urn:oasis:names:tc:SAML:2.0:nameid-format:persistent"
 T = "urn:oasis:names:tc:SAML:2.0:nameid-format:transient"
@@ -174,6 +184,79 @@ def gen_ident(rng, idx, thorough):
     return {"kind": "ident", "flavour": kind, "cfg": cfg, "users": users, "ops": ops, "idx": idx}
 
 
+# ---- complete enumeration of short histories over a small abstract alphabet
+ENUM_USERS = ["alice", "bob smith"]
+ENUM_SP1, ENUM_SP2, ENUM_NQ = "https://sp1.example.org/sp.xml", "sp,2=x", "https://idp.example.org/idp.xml"
+ENUM_ALPHABET = ["P11", "P12", "P21", "T11", "E11", "P10", "newid", "terminate", "remove", "findlocal"]
+
+
+def gen_ident_enum(maxlen):
+    """ALL histories of length 1..maxlen over ENUM_ALPHABET: persistent ids for (user 1, requester 1), (user 1,
+    requester 2), (user 2, requester 1), a transient and an e-mail format id for (user 1, requester 1), a persistent id
+    without requester and qualifier, and NewID / Terminate / remove_remote / find_local_id applied to the NameID that
+    the most recent NameID-returning step answered."""
+    import itertools
+
+    out = []
+    for n in range(1, maxlen + 1):
+        for word in itertools.product(ENUM_ALPHABET, repeat=n):
+            ops, last = [], None
+            for k, a in enumerate(word):
+                ref = {"ref": last} if last is not None else {"lit": [None, ENUM_SP1, P, None, "unknown-%d" % k]}
+                if a in ("P11", "P12", "P21"):
+                    ops.append({"op": "persistent", "u": ENUM_USERS[int(a[1]) - 1], "s": ENUM_SP1 if a[2] == "1" else ENUM_SP2,
+                                "q": ENUM_NQ})
+                    last = k
+                elif a == "P10":
+                    ops.append({"op": "persistent", "u": ENUM_USERS[0], "s": "", "q": None})
+                    last = k
+                elif a == "T11":
+                    ops.append({"op": "transient", "u": ENUM_USERS[0], "s": ENUM_SP1, "q": ENUM_NQ})
+                    last = k
+                elif a == "E11":
+                    ops.append({"op": "get", "u": ENUM_USERS[0], "f": E, "s": ENUM_SP1, "q": ENUM_NQ})
+                    last = k
+                elif a == "newid":
+                    ops.append({"op": "manage", "n": ref, "new": ["some", "new id"], "enc": False, "term": False})
+                    last = k
+                elif a == "terminate":
+                    ops.append({"op": "manage", "n": ref, "new": None, "enc": False, "term": True})
+                    last = k
+                elif a == "remove":
+                    ops.append({"op": "remove", "n": ref})
+                else:
+                    ops.append({"op": "findlocal", "n": ref})
+            out.append({"kind": "ident", "flavour": "enum", "cfg": {"domain": "example.org", "nq": ENUM_NQ},
+                        "users": list(ENUM_USERS), "ops": ops, "idx": "".join(w[0] + w[-1] for w in word)})
+    return out
+
+
+def gen_ident_scenarios():
+    """Directed histories around the two identifier findings: a second non-transient identifier (any other format,
+    issued or stored raw) for the same (user, requester, qualifier) followed by NewID / Terminate / removal of the
+    persistent one; and the same for a persistent identifier without requester and qualifier."""
+    out = []
+    for sp, nq in ((ENUM_SP1, ENUM_NQ), ("sp,3=x", None), ("", None)):
+        for fmt in (E, U, "custom fmt,1=x"):
+            for how in ("get", "store"):
+                for act in ("newid", "terminate", "remove"):
+                    ops = [{"op": "persistent", "u": "alice", "s": sp, "q": nq}]
+                    if how == "get":
+                        ops.append({"op": "get", "u": "alice", "f": fmt, "s": sp, "q": nq})
+                    else:
+                        ops.append({"op": "store", "u": "alice", "n": {"lit": [nq, sp, fmt, None, "lit-1 %s" % fmt[-3:]]}})
+                    if act == "remove":
+                        ops.append({"op": "remove", "n": {"ref": 0}})
+                    else:
+                        ops.append({"op": "manage", "n": {"ref": 0}, "new": ["some", "new,id=1"] if act == "newid" else None,
+                                    "enc": False, "term": act == "terminate"})
+                    ops += [{"op": "persistent", "u": "alice", "s": sp, "q": nq}, {"op": "findlocal", "n": {"ref": 0}},
+                            {"op": "find", "u": "alice", "flt": []}]
+                    out.append({"kind": "ident", "flavour": "scenario", "cfg": {"domain": "example.org", "nq": ENUM_NQ},
+                                "users": ["alice"], "ops": ops, "idx": len(out)})
+    return out
+
+
 CODEC_VALUES = [None, "", "a", "a,1=b", "0=a", "a=b", "a b", "%", "%2C", "a%20b", "/", "a/b", "é", "€,", "1", "4=",
                 ",", "=", " ", "a,b", "a\tb", "~._-", "A+B", "x" * 40, "é=é", "%zz", "a%"]
 
@@ -222,6 +305,20 @@ def gen_eptid_pairs():
     return out
 
 
+E_ARGS = [["a"], ["ab"], ["abc"], ["a", "b"], ["a", "bc"], ["ab", "c"], ["a", "b", "c"]]
+
+
+def gen_eptid_extras():
+    """ALL ordered pairs of calls that split the characters "abc" differently over user id and extra arguments (one
+    provider, requesters sp / s): the open finding class 4 (Eptid.make concatenates its arguments)."""
+    out = []
+    for a in E_ARGS:
+        for b in E_ARGS:
+            for sp2 in ("sp", "s"):
+                out.append({"kind": "eptid", "secret": "p", "calls": [["idp", "sp", list(a)], ["idp", sp2, list(b)]], "tag": "extras"})
+    return out
+
+
 def gen_eptid_random(rng, idx):
     idps = ["https://idp.example.org/idp.xml"] + (["idp2", "idp!2"] if rng.random() < 0.3 else [])
     sps = rng.sample(E_SPS + ["https://sp.example.org/sp", "sp!x", "sä", ""], rng.randint(1, 4))
@@ -234,9 +331,12 @@ def gen_eptid_random(rng, idx):
 def generate(ctx):
     rng = ctx.rng
     groups = [[gen_ident(rng, i, ctx.thorough) for i in range(2000 if ctx.thorough else 300)],
+              gen_ident_enum(4 if ctx.thorough else 3),
+              gen_ident_scenarios(),
               [gen_codec(rng, i) for i in range(400 if ctx.thorough else 60)],
               [gen_decode(rng, i) for i in range(2000 if ctx.thorough else 300)],
               gen_eptid_pairs(),
+              gen_eptid_extras(),
               [gen_eptid_random(rng, i) for i in range(600 if ctx.thorough else 100)]]
     # interleave the kinds so that the expensive histories are spread evenly over the coqc shards
     keyed = []
@@ -475,6 +575,23 @@ def observe(case):
 
 
 # ------------------------------------------------------------------------------------- Coq terms
+def _global_strings():
+    """Strings that occur in most cases (pool values, formats and their percent-quoted forms): defined once per case
+    file (in IMPORTS) instead of once per case — parsing string data is what the case files cost."""
+    from urllib.parse import quote
+
+    vals = []
+    for v in (USER_POOL + SP_POOL + NQ_POOL + SPID_POOL + [P, T, E, U, "custom fmt,1=x", "example.org", "ex ample.org",
+                                                         "new id", ENUM_SP1, ENUM_SP2, ENUM_NQ] + ENUM_USERS):
+        for w in (v, quote(v)):
+            if w not in vals and len(w.encode("utf-8")) > 6:
+                vals.append(w)
+    return vals
+
+
+GLOBAL = {v: "g_%d" % k for k, v in enumerate(_global_strings())}
+
+
 class Pool:
     """String emitter of one case.  Coq's string notation is slow (~60 us per character), so longer
     strings are written as lists of 63-bit integers (7 bytes each, decoded by C18.Corr.u inside
@@ -502,6 +619,8 @@ class Pool:
         b = v.encode("utf-8")
         if len(b) <= 6 and all(0x20 <= c <= 0x7E for c in b):
             return '"' + v.replace('"', '""') + '"'
+        if v in GLOBAL:
+            return GLOBAL[v]
         if len(b) > 40:
             # a long value (forward entries, codes) is written as the concatenation of its pieces
             # between separators, so that the pieces (identifiers, quoted formats, ...) are shared
@@ -662,7 +781,7 @@ def histogram(cases, observed):
             h["codec_items"] += len(c["items"])
         else:
             keys = {}
-            for idp, sp, args in c["calls"]:
+            for idp, sp, args in c["calls"]:      # the cache key before 331c8f06
                 keys.setdefault(sp + "__" + args[0], set()).add((idp, sp, tuple(args)))
             if any(len(v) > 1 for v in keys.values()):
                 h["eptid_colliding_histories"] += 1
@@ -677,3 +796,7 @@ def shrink(case, ctx):
     """Shorten a failing ident history from the end while it still contains the failing behaviour is
     not decidable here without Coq; keep the case (histories are short)."""
     return case
+
+
+IMPORTS += "\nImport ListNotations.\n" + "\n".join("Definition %s := %s." % (name, Pool.pack(v.encode("utf-8")))
+                                                  for v, name in GLOBAL.items())
